@@ -17,7 +17,12 @@ Record aleaf := { al_leaf : leaf; al_read : bool; al_write : bool; al_ctor : boo
 Definition has_acc (accs : list accessor) (set : bool) (name : string) : bool :=
   existsb (fun a => Bool.eqb (ac_set a) set && String.eqb (ac_name a) name) accs.
 
-(* the fields of one side as the property sees them *)
+Definition has_acc_path (accs : list accessor) (set : bool) (p : path) : bool :=
+  existsb (fun a => Bool.eqb (ac_set a) set && path_eqb (ac_path a) p) accs.
+
+(* the fields of one side as the property sees them.  A shoot-new side may embed
+   (shoot-new) base structs: their fields take part through the promoted accessors
+   and the nested constructor literal. *)
 Definition side15 (e : env) (fuel : nat) (p : pkg) (n : string) (accs : list accessor) (ctor : list cparam)
   : list aleaf :=
   match accs, ctor with
@@ -27,19 +32,19 @@ Definition side15 (e : env) (fuel : nat) (p : pkg) (n : string) (accs : list acc
       match struct_fields e p n with
       | None => []
       | Some fs =>
-          flat_map (fun f =>
-            if sf_emb f then [] else
-            if String.eqb (sf_tag f) "-" then [] else
-            let exported := is_exported (sf_name f) in
-            let nm := if exported then sf_name f else to_pascal_case (sf_name f) in
-            let isctor := existsb (fun c => String.eqb (cp_field c) (sf_name f)) ctor in
-            let setter := has_acc accs true ("Set" ++ nm) in
-            [{| al_leaf := {| l_name := nm; l_path := [sf_name f]; l_ty := sf_ty f; l_depth := 0; l_hops := [];
-                              l_tag := sf_tag f |};
-                al_read := exported || has_acc accs false nm;
+          flat_map (fun l =>
+            if String.eqb (l_tag l) "-" then [] else
+            let exported := is_exported (l_name l) in
+            let nm := if exported then l_name l else to_pascal_case (l_name l) in
+            (* a parameter below `&Base{...}` is not recognised by the mapper (cp_field = "") *)
+            let isctor := existsb (fun c => path_eqb (cp_path c) (l_path l) && negb (String.eqb (cp_field c) "")) ctor in
+            let setter := has_acc_path accs true (l_path l) in
+            [{| al_leaf := {| l_name := nm; l_path := l_path l; l_ty := l_ty l; l_depth := l_depth l;
+                              l_hops := l_hops l; l_tag := l_tag l |};
+                al_read := exported || has_acc_path accs false (l_path l);
                 al_write := exported || setter || isctor;
                 al_ctor := isctor;
-                al_setter := setter || exported |}]) fs
+                al_setter := setter || exported |}]) (leaves_of e fuel [] 0 [] fs)
       end
   end.
 
@@ -82,6 +87,19 @@ Section Spec15.
   Definition strip (prs : list (aleaf * aleaf * strategy)) : list (leaf * leaf * strategy) :=
     map (fun x => (al_leaf (fst (fst x)), al_leaf (snd (fst x)), snd x)) prs.
 
+  (* when the constructor call is used (some parameter receives a mapped value) its
+     literal allocates every embedded pointer struct of the written type *)
+  Definition ctor_used (prs : list (aleaf * aleaf * strategy)) : bool :=
+    existsb (fun x => al_ctor (fst (fst x))
+                      && match snd x with SAssign | SConv _ _ | SFunc _ => true | _ => false end) prs.
+
+  Definition all_hops (ws : list aleaf) : list (path * ty) :=
+    fold_left (fun acc w => fold_left (fun acc h => if existsb (fun h' => path_eqb (fst h') (fst h)) acc then acc else acc ++ [h])
+                                      (l_hops (al_leaf w)) acc) ws [].
+
+  Definition start_value (w0 : val) (ws : list aleaf) (prs : list (aleaf * aleaf * strategy)) : option val :=
+    if ctor_used prs then alloc_hops e zf w0 (all_hops ws) else Some w0.
+
   Fixpoint spec15_to (fuel : nat) (tn : string) (recv : val) : option val :=
     match fuel with
     | O => None
@@ -89,10 +107,14 @@ Section Spec15.
         match find_job jobs tn, recv with
         | Some jb, VNil => Some VNil
         | Some jb, VPtr s =>
-            match write_pairs e zf U (fun n y => opt_out (spec15_to fuel' n y)) PDst true s
-                              (zero_val e zf (TNamed PDst (j_dst jb))) (strip (pairs15 e zf jb true)) with
-            | Some d => Some (VPtr d)
+            match start_value (zero_val e zf (TNamed PDst (j_dst jb))) (dst15 e zf jb) (pairs15 e zf jb true) with
             | None => None
+            | Some d0 =>
+                match write_pairs e zf U (fun n y => opt_out (spec15_to fuel' n y)) PDst true s d0
+                                  (strip (pairs15 e zf jb true)) with
+                | Some d => Some (VPtr d)
+                | None => None
+                end
             end
         | _, _ => None
         end
@@ -105,10 +127,14 @@ Section Spec15.
         match find_job jobs tn, arg with
         | Some jb, VNil => Some VNil
         | Some jb, VPtr d =>
-            match write_pairs e zf U (fun n y => opt_out (spec15_from fuel' n y)) PSrc false d
-                              (zero_val e zf (TNamed PSrc (j_src jb))) (strip (pairs15 e zf jb false)) with
-            | Some s => Some (VPtr s)
+            match start_value (zero_val e zf (TNamed PSrc (j_src jb))) (src15 e zf jb) (pairs15 e zf jb false) with
             | None => None
+            | Some s0 =>
+                match write_pairs e zf U (fun n y => opt_out (spec15_from fuel' n y)) PSrc false d s0
+                                  (strip (pairs15 e zf jb false)) with
+                | Some s => Some (VPtr s)
+                | None => None
+                end
             end
         | _, _ => None
         end
@@ -116,13 +142,17 @@ Section Spec15.
 End Spec15.
 
 (* ------------------------------------------------------------------ guard *)
-Definition flat_side (e : env) (p : pkg) (n : string) : bool :=
+(* a shoot-new side: no map:"-" tag (K_map_dash_accessor), leaf names unique, embedded fields are declared
+   structs, and below an embedded POINTER only exported fields: an accessor promoted through a nil embedded
+   pointer panics (K_map_promoted_accessor_nil) *)
+Definition sn_side (e : env) (fuel : nat) (p : pkg) (n : string) (accs : list accessor) : bool :=
   match struct_fields e p n with
-  | Some fs => forallb (fun f => negb (String.eqb (sf_tag f) "-")) fs   (* K_map_dash_accessor *)
-               && forallb (fun f => negb (sf_emb f) || match sf_ty f with
-                                                     | TNamed q m => match lookup_decl e q m with
-                                                                     | Some (DStruct []) => true | _ => false end
-                                                     | _ => false end) fs
+  | Some fs =>
+      let ls := leaves_of e fuel [] 0 [] fs in
+      forallb (fun l => negb (String.eqb (l_tag l) "-") && (Nat.eqb (l_depth l) 0 || String.eqb (l_tag l) "")) ls
+      && forallb (fun l => Nat.eqb (length (filter (fun l' => String.eqb (l_name l') (l_name l)) ls)) 1) ls
+      && forallb (fun l => match l_hops l with [] => true | _ => is_exported (l_name l) end) ls
+      && forallb (fun x => negb (String.eqb (fst x) "")) (embedded_names e fuel 0 fs)
   | None => false
   end.
 
@@ -144,7 +174,7 @@ Definition dir_guard15 (e : env) (fuel : nat) (jobs : list job) (jb : job) (to_d
   let nm (w r : aleaf) := if to_dir then names_match tm (j_ic jb) (l_name (al_leaf r)) (l_name (al_leaf w))
                           else names_match tm (j_ic jb) (l_name (al_leaf w)) (l_name (al_leaf r)) in
   (* K_map_setonly_read: no field that can be written but not read faces a writable counterpart *)
-  forallb (fun r => al_read r || negb (al_setter r && negb (is_exported (hd "" (l_path (al_leaf r)))))
+  forallb (fun r => al_read r || negb (al_setter r && negb (is_exported (last (l_path (al_leaf r)) "")))
                     || negb (existsb (fun w => al_write w && nm w r) ws)) rs
   (* one-to-one name matching *)
   && forallb (fun w => Nat.leb (length (filter (fun r => nm w r) rs)) 1) ws
@@ -185,8 +215,8 @@ Definition dir_guard15 (e : env) (fuel : nat) (jobs : list job) (jb : job) (to_d
 Definition job_guard15 (e : env) (fuel : nat) (jobs : list job) (jb : job) : bool :=
   if plain_job jb then job_guard e fuel jobs jb
   else
-    (match j_src_acc jb, j_src_ctor jb with [], [] => side_guard e fuel PSrc (j_src jb) | _, _ => flat_side e PSrc (j_src jb) end)
-    && (match j_dst_acc jb, j_dst_ctor jb with [], [] => side_guard e fuel PDst (j_dst jb) | _, _ => flat_side e PDst (j_dst jb) end)
+    (match j_src_acc jb, j_src_ctor jb with [], [] => side_guard e fuel PSrc (j_src jb) | _, _ => sn_side e fuel PSrc (j_src jb) (j_src_acc jb) end)
+    && (match j_dst_acc jb, j_dst_ctor jb with [], [] => side_guard e fuel PDst (j_dst jb) | _, _ => sn_side e fuel PDst (j_dst jb) (j_dst_acc jb) end)
     && match j_manual_to jb, j_manual_from jb with None, None => true | _, _ => false end
     && dir_guard15 e fuel jobs jb true && dir_guard15 e fuel jobs jb false.
 
